@@ -47,25 +47,40 @@ Print Assumptions find_first_spec.
     when the body is cut short; the memory view route yields the same bytes
     when they are all there. *)
 Theorem read_block_spec : forall q, block_valid q = true ->
+  (p_body q <= length (p_bytes q))%nat ->
   let b := mkblock (p_type q) (p_len q) (p_body q) in
   match read_current_block q, body_of (p_bytes q) b with
   | Ok (got, _), Some body => got = body
   | Err e, None => e = SB_EREAD
   | _, _ => False
   end.
-Proof. exact Container_Proofs.read_block_spec. Qed.
+Proof. exact Container_Proofs.read_block_spec'. Qed.
 Print Assumptions read_block_spec.
 
+(** Both routes of the 'ex' variant: the same bytes (copied for a descriptor,
+    viewed for memory) or a read error -- never a view beyond the buffer. *)
 Theorem read_block_ex_spec : forall q, block_valid q = true ->
+  (p_body q <= length (p_bytes q))%nat ->
   let b := mkblock (p_type q) (p_len q) (p_body q) in
-  match read_current_block_ex q, body_of (p_bytes q) b, p_route q with
-  | Ok (got, owned, _), Some body, r => got = body /\ owned = (match r with Fd => true | Mem => false end)
-  | Err e, None, Fd => e = SB_EREAD
-  | OOB _ _, None, Mem => True   (* today: view beyond the buffer (defect D1) *)
-  | _, _, _ => False
+  match read_current_block_ex q, body_of (p_bytes q) b with
+  | Ok (got, owned, _), Some body =>
+      got = body /\ owned = (match p_route q with Fd => true | Mem => false end)
+  | Err e, None => e = SB_EREAD
+  | _, _ => False
   end.
-Proof. exact Container_Proofs.read_block_ex_spec. Qed.
+Proof. exact Container_Proofs.read_block_ex_spec'. Qed.
 Print Assumptions read_block_ex_spec.
+
+(** The extra hypothesis holds for every block the parser can be parked on. *)
+Theorem reachable_blocks_start_inside : forall r bytes p q ty,
+  parser_init r bytes = Ok p ->
+  (block_valid p = true -> (p_body p <= length (p_bytes p))%nat) /\
+  (forall p', (block_valid p' = true -> (p_body p' <= length (p_bytes p'))%nat) ->
+     (seek_to_next_block p' = Ok q -> block_valid q = true -> (p_body q <= length (p_bytes q))%nat) /\
+     (rewind p' = Ok q -> block_valid q = true -> (p_body q <= length (p_bytes q))%nat) /\
+     (find_first p' ty = Ok q -> block_valid q = true -> (p_body q <= length (p_bytes q))%nat)).
+Proof. exact Container_Proofs.reachable_blocks_start_inside. Qed.
+Print Assumptions reachable_blocks_start_inside.
 
 (** Round trip: the records of an encoded list of blocks are those blocks. *)
 Theorem records_of_encoding : forall hdr bs, wf_blocks bs = true ->
